@@ -479,7 +479,7 @@ func run(c *vh.Ctx) error {
 	}
 
 	// ---- headers ----------------------------------------------------------------------------------------
-	nWorlds := c.N(50, 480)
+	nWorlds := c.N(50, 420)
 	if c.Search {
 		nWorlds *= 2
 	}
